@@ -4,7 +4,8 @@
    regex-based split_lines of the shared model (`\r?\n` through the generic matcher) is checked by the correspondence on
    every run, not proved.  parse_lines = parse_script after line splitting; llines = the logical lines. *)
 From BS Require Import Model.Base Model.Regex Model.Num Model.ExprParser Model.Script Model.ScriptX Model.Lower
-  Gen.Unicode Proofs.ScriptFacts Proofs.C06 Proofs.C10 Proofs.C10ws Proofs.C10wsExpr Proofs.C10wsIndent.
+  Gen.Unicode Proofs.ScriptFacts Proofs.C06 Proofs.C10 Proofs.C10ws Proofs.C10wsExpr Proofs.C10wsIndent
+  Proofs.ExprFuel Proofs.C10wsFull.
 
 (* ---- LF versus CRLF: both texts have the same lines ---- *)
 Theorem C10_crlf : forall lines, lines <> [] -> Forall no_lf lines -> Forall (fun l => ends_cr l = false) lines ->
@@ -86,13 +87,25 @@ Print Assumptions C10_ws_else_gap.
 (* ---- leading whitespace in front of an expression: parse_expression gives the same tree; an error keeps its text and
    its column moves with the text (c + |ws|), or stays 1 when the very first token is rejected (parser.py then reports the
    whole text as the remainder).  eres_ws d a b relates a = parse_expression text and b = parse_expression (ws ++ text).
-   The premise `<> EFuel` is about the MODEL's fuel (2*|text|+4): that it always suffices is not proved here.
+   No fuel premise any more: the MODEL's fuel (2*|text|+4) always suffices (C10_expression_fuel_suffices, Proofs/ExprFuel.v:
+   parse_unary needs 2n+1, parse_binary 2n+2 / 2n+1, parse_args 2n+3 / 2n+1 levels of recursion on a text of n characters,
+   because `(`, a unary or binary operator and `,` read >= 1 character and `name(` >= 2 — computed on the regenerated regexes).
    Proved through the regenerated token regexes `^\s*B` (Proofs/RegexShift.v: the engine's answer on ws ++ text is its
    answer on text shifted by |ws|).  PARTIAL with respect to the clause: only a LEADING run, not the gaps between tokens. ---- *)
-Theorem C10_ws_expression_leading_partial : forall ws text, white ws -> parse_expression text <> EFuel ->
+Theorem C10_expression_fuel_suffices : forall text, parse_expression text <> EFuel.
+Proof. exact parse_expression_no_fuel. Qed.
+Print Assumptions C10_expression_fuel_suffices.
+
+Theorem C10_ws_expression_leading_partial : forall ws text, white ws ->
   eres_ws (length ws) (parse_expression text) (parse_expression (ws ++ text)).
-Proof. exact parse_expression_ws. Qed.
+Proof. exact parse_expression_ws_full. Qed.
 Print Assumptions C10_ws_expression_leading_partial.
+
+(* the error case spelled out *)
+Theorem C10_ws_expression_leading_err : forall ws text msg c, white ws -> parse_expression text = EErr msg c ->
+  parse_expression (ws ++ text) = EErr msg (c + length ws) \/ (c = 1 /\ parse_expression (ws ++ text) = EErr msg 1).
+Proof. exact parse_expression_ws_err. Qed.
+Print Assumptions C10_ws_expression_leading_err.
 
 Theorem C10_ws_expression_leading_ok : forall ws text e, white ws ->
   parse_expression text = EOk e -> parse_expression (ws ++ text) = EOk e.
